@@ -376,6 +376,8 @@ def assess(pid, plan, recs, verdicts, info, nrand):
                            "every recorded execution validated by TLC against Metanet.tla/Compile.tla."),
            "tlc_cases": info["cases"], "random_cases": nrand, "shapes": info["shapes"],
            "function_evaluations": ncalls,
+           "closed_loop_steps_validated": sum(1 for r in recs if r.get("src") == "trajectory"),
+           "related_networks_compared": sum(1 for r in recs if r.get("rel", {}).get("kind", "none") != "none"),
            "distinct_branch_signatures": len(sigs), "distinct_local_patterns": len(pats),
            "undefined_cases_skipped_for_numeric_verdict": sum(1 for v in verdicts if not v["defined"])}
     return {"violations": viol, "coverage": cov, "level": "model_checking",
